@@ -519,13 +519,28 @@ NextBatch ==
     /\ outs' = [outs EXCEPT ![batch][1].idle = Cardinality({c \in 1..Len(conns) : conns[c].st = "idle" /\ ~conns[c].health})]
     /\ UNCHANGED <<cfg, i, j, cur, ups, hosts, health, conns>>
 
-ReqStep(k) == \/ Match(k) \/ Select(k) \/ SetHost(k) \/ Direct(k) \/ PickTransport(k) \/ GetConn(k) \/ Dial(k) \/ Hello(k) \/ Verify(k)
-              \/ Negotiate(k) \/ Send(k) \/ Respond(k) \/ Relay(k) \/ Release(k)
+\* (one named action per step, so that TLC accounts for each of them separately)
+DoMatch == \E k \in DOMAIN fl : Match(k)
+DoSelect == \E k \in DOMAIN fl : Select(k)
+DoSetHost == \E k \in DOMAIN fl : SetHost(k)
+DoDirect == \E k \in DOMAIN fl : Direct(k)
+DoPickTransport == \E k \in DOMAIN fl : PickTransport(k)
+DoGetConn == \E k \in DOMAIN fl : GetConn(k)
+DoDial == \E k \in DOMAIN fl : Dial(k)
+DoHello == \E k \in DOMAIN fl : Hello(k)
+DoVerify == \E k \in DOMAIN fl : Verify(k)
+DoNegotiate == \E k \in DOMAIN fl : Negotiate(k)
+DoSend == \E k \in DOMAIN fl : Send(k)
+DoRespond == \E k \in DOMAIN fl : Respond(k)
+DoRelay == \E k \in DOMAIN fl : Relay(k)
+DoRelease == \E k \in DOMAIN fl : Release(k)
+DoClientGone == \E k \in DOMAIN fl : ClientGone(k)
+ProxyStep == DoMatch \/ DoSelect \/ DoSetHost \/ DoDirect \/ DoPickTransport \/ DoGetConn \/ DoDial \/ DoHello \/ DoVerify \/ DoNegotiate \/ DoSend \/ DoRespond \/ DoRelay \/ DoRelease
 Next == \/ ParseOption \/ MakeHost \/ SetupDone \/ HealthRound \/ Start \/ NextBatch
-        \/ \E k \in DOMAIN fl : ReqStep(k) \/ ClientGone(k)
+        \/ ProxyStep \/ DoClientGone
 Spec == Init /\ [][Next]_vars
 \* the proxy's own steps are fair; a client is free to wait for ever
-Fairness == WF_vars(ParseOption \/ MakeHost \/ SetupDone \/ HealthRound \/ Start \/ NextBatch \/ \E k \in DOMAIN fl : ReqStep(k))
+Fairness == WF_vars(ParseOption \/ MakeHost \/ SetupDone \/ HealthRound \/ Start \/ NextBatch \/ ProxyStep)
 LiveSpec == Spec /\ Fairness
 
 -----------------------------------------------------------------------------
